@@ -16,6 +16,10 @@ type stats struct {
 	failAfterData int
 	opMidSession  int
 	opMidBackoff  int
+	// non-trivial rule of the overlap part: an external call started while another
+	// was in flight, or landed on the instant of a receive-timeout expiry or retry
+	// of its own target.
+	overlapHits int
 }
 
 func (s *stats) label(l string) {
@@ -50,6 +54,7 @@ type sstate struct {
 	connected bool     // Connect reported for this stream
 	ended     bool     // Recv returned an error
 	sendFail  bool
+	endAt     *time.Duration // overlap part: instant the stream learnt of its end (cancellation seen, or Recv failed)
 }
 
 // tstate is the per-target monitor.
